@@ -23,6 +23,12 @@ class ExprMixin:
     def oblige(self, path, kind, goal, node=None, note="", assume=True):
         if isinstance(goal, bool):
             goal = z3.BoolVal(goal)
+        if not kind.startswith("safe:") and z3.is_app(goal) and goal.decl().kind() == z3.Z3_OP_AND and "." not in kind.split(":")[0]:
+            # one obligation per conjunct: a failure then names the clause
+            base, _, rest = kind.partition(":")
+            for i, part in enumerate(_flat_and(goal), 1):
+                self.oblige(path, f"{base}.{i}" + (":" + rest if rest else ""), part, node, note, assume)
+            return
         if path.guards:
             goal = sv.Implies(sv.And(*path.guards), goal)
         g = sv.simp(goal)
@@ -33,6 +39,20 @@ class ExprMixin:
         self.emit(path, kind, goal, node, note)
         if assume:
             path.pc.append(goal)
+
+    def entails(self, path, fact):
+        """cheap check that the quantifier-free part of the path condition implies `fact`"""
+        from .path import is_quantified
+
+        s = z3.Solver()
+        s.set("timeout", 500)
+        for c in path.pc:
+            if not is_quantified(c):
+                s.add(c)
+        if path.guards:
+            s.add(*path.guards)
+        s.add(z3.Not(fact))
+        return s.check() == z3.unsat
 
     def safe(self, path, what, goal, node):
         self.oblige(path, "safe:" + what, goal, node)
@@ -355,7 +375,7 @@ class ExprMixin:
                 return R(x * y)
             if o is ast.Div:
                 self.safe(path, "div0", y != 0, node)
-                return sv.SReal(sv.to_real(a.e) / sv.to_real(b.e))
+                return sv.SReal(self.rdiv(path, a.e, b.e))
             if o is ast.FloorDiv and both_int:
                 self.safe(path, "div0", y != 0, node)
                 return sv.SInt(self.floordiv(x, y))
@@ -383,7 +403,7 @@ class ExprMixin:
                 return sv.SDelta(a.e - b.e)
             if o is ast.Div:
                 self.safe(path, "div0", b.e != 0, node)
-                return sv.SReal(z3.ToReal(a.e) / z3.ToReal(b.e))
+                return sv.SReal(self.rdiv(path, a.e, b.e))
             if o is ast.FloorDiv:
                 self.safe(path, "div0", b.e != 0, node)
                 return sv.SInt(self.floordiv(a.e, b.e))
@@ -415,7 +435,7 @@ class ExprMixin:
             if o is ast.Div:
                 if B is not sv.SPay:
                     self.safe(path, "div0", y != 0, node)
-                return sv.SPay(x / y, self.units_div(ua, ub))
+                return sv.SPay(self.rdiv(path, x, y), self.units_div(ua, ub))
         r = self.lib_binop(op, a, b, path, node)
         if r is not None:
             return r
@@ -424,6 +444,13 @@ class ExprMixin:
         if isinstance(a, sv._Leaf) and isinstance(b, sv._Leaf):
             raise _TypeErr()
         raise Unsupported(f"operator {o.__name__} on {a} and {b}", node)
+
+    def rdiv(self, path, a, b):
+        facts = []
+        q = sv.rdiv(a, b, facts)
+        for f in facts:
+            path.assume(f)
+        return q
 
     def units_mul(self, ua, ub):
         if ua is None:
@@ -578,6 +605,8 @@ class ExprMixin:
         ie = sv.simp(i.e)
         if z3.is_int_value(ie):
             act = ie if ie.as_long() >= 0 else lst.n + ie
+        elif self.entails(path, ie >= 0):
+            act = ie  # provably non-negative: no wrap-around
         else:
             act = sv.If(ie < 0, ie + lst.n, ie)
         self.safe(path, "index", sv.And(0 <= act, act < lst.n), node)
@@ -855,6 +884,15 @@ class ExprMixin:
             if isinstance(node, (ast.NamedExpr, ast.Await, ast.Yield)):
                 return False
         return True
+
+
+def _flat_and(e):
+    if z3.is_app(e) and e.decl().kind() == z3.Z3_OP_AND:
+        out = []
+        for c in e.children():
+            out += _flat_and(c)
+        return out
+    return [e]
 
 
 class _TypeErr(Exception):
